@@ -19,10 +19,42 @@ ASSUMPTIONS = [
 ]
 
 
+HASHSEEDS = [0, 1, 424242]
+
+
 def plan(tier, seed):
     sp = progwork.shards(tier, 1500, 50000, exhaustive=(tier == 'thorough'))
     from hv import realwork
+    # the same fixed cases in processes with different PYTHONHASHSEED; compared in finalize()
+    sp += [{'kind': 'hashseed', 'hashseed': hs, 'n': 4 if tier == 'quick' else 40} for hs in HASHSEEDS]
     return sp + realwork.shards('C05', tier)
+
+
+def run_hashseed(spec, tier, seed):
+    import sys
+    from hv import scen, realwork
+    res = Result()
+    table = {}
+    for label, prog in progen.corpus():
+        out, tv, _ = progwork.traced_run(prog)
+        res.evaluations += 1
+        table['corpus:' + label] = h([canon(out, tv), attempt_seq(tv)], 16)
+    rng = rng_for('C05hs', seed)
+    for k in range(spec['n'] * 20):
+        prog = progen.random_program(rng)
+        out, tv, _ = progwork.traced_run(prog)
+        res.evaluations += 1
+        table[f'random:{k}'] = h([canon(out, tv), attempt_seq(tv)], 16)
+    for year in (2021, 2022, 2023):
+        for fam in ('F0', 'F2', 'F8', 'F5'):
+            for p in scen.personas(seed, year, fam, spec['n']):
+                out, tv, _ = realwork.traced(p)
+                res.evaluations += 1
+                table[f'real:{year}:{fam}:{p.key}'] = h([canon(out, tv), attempt_seq(tv)], 16)
+    res.extra['hashseed_tables'] = {str(spec['hashseed']): table}
+    res.count('hashseed_cases', len(table))
+    res.sample({'PYTHONHASHSEED': spec['hashseed'], 'flags_hash_randomization': sys.flags.hash_randomization, 'cases': len(table)})
+    return res
 
 
 def canon(out, tv, unmap=None):
@@ -98,6 +130,8 @@ def rename_lines(prog, rng):
 
 
 def run_shard(spec, tier, seed):
+    if spec['kind'] == 'hashseed':
+        return run_hashseed(spec, tier, seed)
     if spec['kind'] == 'real':
         from hv import realwork
         return realwork.run_shard('C05', spec, tier, seed)
@@ -168,6 +202,16 @@ def _diff(a, b):
 
 
 def finalize(res, tier):
+    tables = res.extra.get('hashseed_tables', {})
+    if len(tables) >= 2:
+        base_hs = sorted(tables)[0]
+        for hs, t in tables.items():
+            for label, hv_ in t.items():
+                res.count('hashseed_comparisons')
+                if tables[base_hs].get(label) != hv_:
+                    res.violation('C05|hashseed', f'{label}: outcome or attempt order differs between PYTHONHASHSEED={base_hs} and {hs}', {'label': label, 'hashseeds': [base_hs, hs]})
+    else:
+        res.inconclusive.append('hash-seed variants did not run')
     if res.counters.get('cases_with_distinct_orders', 0) < 100:
         res.inconclusive.append('fewer than 100 cases in which the variants produced distinct attempt orders')
     return {'distinct_attempt_sequences': len(res.distinct)}
